@@ -7,5 +7,6 @@ CONSTANTS
   EmitCases = FALSE
   RefuseDotNames = FALSE
   RefuseOPathCreate = TRUE
+  KeepDotInStack = FALSE
 INVARIANTS TypeOK OutsideFrame ResultInside
 CHECK_DEADLOCK FALSE
